@@ -309,7 +309,7 @@ class Check:
         cmd = [
             "java",
             "-XX:+UseParallelGC",
-            "-Xmx8g",
+            "-Xmx" + os.environ.get("VERIF_XMX", "8g"),
         ]
         if dfs:
             cmd.append("-Dtlc2.tool.queue.IStateQueue=StateDeque")
